@@ -4,7 +4,7 @@
   * `parseJ`     a total RFC 8259 reader (fuel-structural, rejects everything that is not one JSON value:
                  raw control characters in strings, lone surrogates, leading zeros, trailing garbage)
   * `printTree`  the compact writer of `serde_json::to_string` (its escapes: \" \\ \b \f \n \r \t, \u00XX below 0x20)
-  * `treeOf`     the tree that the writer produces for a `JVal` (number → decimal literal, string → its characters)
+  * (`J1.treeOf`, in Lemmas/J1Text.lean: the tree that the writer produces for a `JVal` — number → decimal literal, string → its characters)
   * `jmatchT`    ORDERED comparison of a `JVal` (the model's `toJ` of a decoded packet) with a tree read from text:
                  same members in the same order, same elements, same literals.
   Core only.  Theorems (`Lemmas/J1*.lean`, `Props/C16b.lean`): `parseJ (printTree t) = some t` for well-formed trees and
